@@ -236,3 +236,71 @@ Proof.
   intros l. unfold judge, run, idle_of. rewrite load_peer_min, Z.eqb_refl. cbn [andb].
   apply judge_evs_ok. apply irel_init.
 Qed.
+
+(* ------------------------------------------------------------------ blackhole, composed: both endpoints *)
+
+(* one endpoint: no packet is processed during [es1 ++ Timeout t :: es2]; the timeout notification at
+   t comes at or after the deadline the endpoint had when the blackhole started and after the
+   deadline any ack-eliciting send of es1 can have set  =>  the endpoint is closed afterwards *)
+Lemma blackhole_timeout_closes : forall idle es1 t es2 s1 d1,
+  iclosed s1 = false -> itimer s1 = Some d1 ->
+  Forall not_recv es1 ->
+  d1 < tsn t + granularity ->
+  (forall t' p' d, In (SendAE t' p') es1 -> idle_duration_ms idle p' = Some d ->
+                   deadline (tsn t') d < tsn t + granularity) ->
+  iclosed (run_ist idle s1 (es1 ++ Timeout t :: es2)) = true.
+Proof.
+  intros idle es1 t es2 s1 d1 Hc Ht Hf Hd Hall.
+  unfold run_ist. rewrite fold_left_app. cbn [fold_left].
+  fold (run_ist idle s1 es1). set (s := run_ist idle s1 es1).
+  fold (run_ist idle (istep idle s (Timeout t)) es2).
+  apply closed_stays.
+  destruct (iclosed s) eqn:Ecs; [unfold istep; rewrite Ecs; exact Ecs|].
+  destruct (blackhole_closes idle es1 s1 s Hc Hf eq_refl) as [H|[(H1 & _)|(_ & _ & t' & p' & Hin & H3)]].
+  - congruence.
+  - apply (idle_timeout_closes idle s d1 t Ecs); [congruence|exact Hd].
+  - destruct (idle_duration_ms idle p') as [d|] eqn:Ed.
+    + apply (idle_timeout_closes idle s (deadline (tsn t') d) t Ecs H3). apply (Hall t' p' d Hin Ed).
+    + apply (idle_timeout_closes idle s d1 t Ecs); [congruence|exact Hd].
+Qed.
+
+(* two endpoints A and B of one connection, each with its own timer state; an event belongs to one *)
+Inductive ev2 := AtA (e : ev) | AtB (e : ev).
+Definition step2 (idle : N) (s : ist * ist) (e : ev2) : ist * ist :=
+  match e with
+  | AtA e => (istep idle (fst s) e, snd s)
+  | AtB e => (fst s, istep idle (snd s) e)
+  end.
+Definition run2 (idle : N) (s : ist * ist) (es : list ev2) : ist * ist := fold_left (step2 idle) es s.
+Definition projA (es : list ev2) : list ev := flat_map (fun e => match e with AtA e => [e] | _ => [] end) es.
+Definition projB (es : list ev2) : list ev := flat_map (fun e => match e with AtB e => [e] | _ => [] end) es.
+
+Lemma run2_proj : forall idle es s,
+  run2 idle s es = (run_ist idle (fst s) (projA es), run_ist idle (snd s) (projB es)).
+Proof.
+  induction es as [|e es IH]; intros [a b]; [reflexivity|].
+  cbn [run2 fold_left]. fold (run2 idle (step2 idle (a, b) e) es). rewrite IH.
+  destruct e; reflexivity.
+Qed.
+
+(* blackhole_closes at the composed level: from some point on no packet is processed at either
+   endpoint (events [es]); both idle timers are armed (each endpoint has processed a packet before);
+   each endpoint's timer fires (a timeout notification reaches it) at or after
+   T' + max(idle, 3 PTO), T' being its last reset: the deadline it had, or the one its first
+   ack-eliciting send since the last receive set.  Then BOTH endpoints have closed the connection
+   (idle_timer_expired is reported to the application; nothing is sent). *)
+Theorem blackhole_closes_both : forall idle es sa sb da db a1 ta a2 b1 tb b2,
+  iclosed sa = false -> iclosed sb = false -> itimer sa = Some da -> itimer sb = Some db ->
+  projA es = a1 ++ Timeout ta :: a2 -> projB es = b1 ++ Timeout tb :: b2 ->
+  Forall not_recv a1 -> Forall not_recv b1 ->
+  da < tsn ta + granularity -> db < tsn tb + granularity ->
+  (forall t' p' d, In (SendAE t' p') a1 -> idle_duration_ms idle p' = Some d ->
+                   deadline (tsn t') d < tsn ta + granularity) ->
+  (forall t' p' d, In (SendAE t' p') b1 -> idle_duration_ms idle p' = Some d ->
+                   deadline (tsn t') d < tsn tb + granularity) ->
+  iclosed (fst (run2 idle (sa, sb) es)) = true /\ iclosed (snd (run2 idle (sa, sb) es)) = true.
+Proof.
+  intros. rewrite run2_proj. cbn [fst snd]. rewrite H3, H4. split.
+  - apply (blackhole_timeout_closes idle a1 ta a2 sa da); assumption.
+  - apply (blackhole_timeout_closes idle b1 tb b2 sb db); assumption.
+Qed.
